@@ -3,9 +3,11 @@
 package blockstore
 
 import (
+	"fmt"
 	"io"
 
 	internalio "github.com/ipld/go-car/v2/internal/io"
+	"github.com/ipld/go-car/v2/internal/store"
 )
 
 // VerifInterposeDataWriter lets a verification harness put a wrapper (e.g. one that injects
@@ -25,4 +27,50 @@ func (b *ReadWrite) VerifInterposeDataWriter(wrap func(io.WriterAt) io.WriterAt)
 	pos := b.dataWriter.Position()
 	b.dataWriter = internalio.NewOffsetWriter(wrap(b.f), offset)
 	b.dataWriter.Seek(pos, io.SeekStart)
+}
+
+// VerifFinalizeReadOnlyVia is FinalizeReadOnly with the index and CARv2 header writes going
+// through wrap(file) instead of the file itself, so that a verification harness can inject
+// write errors and short writes there too. It repeats finalizeReadOnlyWithoutMutex line by
+// line (the only difference is the writer handed to store.Finalize); the harness runs
+// fault-free sessions through both and compares them with the same model.
+func (b *ReadWrite) VerifFinalizeReadOnlyVia(wrap func(io.WriterAt) io.WriterAt) error {
+	b.ronly.mu.Lock()
+	defer b.ronly.mu.Unlock()
+
+	return b.verifFinalizeReadOnlyVia(wrap)
+}
+
+// VerifFinalizeVia is Finalize (FinalizeReadOnly, then Close) over VerifFinalizeReadOnlyVia.
+func (b *ReadWrite) VerifFinalizeVia(wrap func(io.WriterAt) io.WriterAt) error {
+	b.ronly.mu.Lock()
+	defer b.ronly.mu.Unlock()
+
+	for _, err := range []error{b.verifFinalizeReadOnlyVia(wrap), b.closeWithoutMutex()} {
+		if err != nil {
+			return err
+		}
+	}
+	return nil
+}
+
+func (b *ReadWrite) verifFinalizeReadOnlyVia(wrap func(io.WriterAt) io.WriterAt) error {
+	if b.writeErr != nil {
+		return b.writeErr
+	}
+	if b.opts.WriteAsCarV1 {
+		b.finalized = true
+		return nil
+	}
+
+	if b.ronly.closed {
+		return fmt.Errorf("called Finalize or FinalizeReadOnly on a closed blockstore")
+	}
+	if b.finalized {
+		return fmt.Errorf("called Finalize or FinalizeReadOnly on an already finalized blockstore")
+	}
+
+	b.finalized = true
+
+	return store.Finalize(wrap(b.f), b.header, b.idx, uint64(b.dataWriter.Position()), b.opts.StoreIdentityCIDs, b.opts.IndexCodec)
 }
